@@ -1,0 +1,43 @@
+//go:build verif
+
+// Contracts for package jsonable, checked by /verif (govc). Comment-only.
+package jsonable
+
+// A decoded block is a struct whose pointer fields may be nil and whose strings are arbitrary (C12):
+// the only preconditions are on the receiver and on the output object supplied by the codec.
+//@ define validOut(out iface.IPFSLogEntry) = typeis(out, "*entry.Entry") && ref(out) != nil
+//@ define validOutClock(out iface.IPFSLogLamportClock) = typeis(out, "*entry.LamportClock") && ref(out) != nil
+
+//@ func (*LamportClock).ToPlain
+//@   requires c != nil && validOutClock(out)
+//@   modifies fields(out.(*entry.LamportClock))
+//@   ensures err == nil ==> out.(*entry.LamportClock).Time == c.Time
+
+//@ func (*IdentitySignature).ToPlain
+//@   requires c != nil
+//@   ensures err == nil ==> result0 != nil && fresh(result0)
+
+//@ func (*Identity).ToPlain
+//@   requires c != nil
+//@   observe c.Signatures
+//@   replay decodeentry
+//@   ensures err == nil ==> result0 != nil && fresh(result0)
+
+//@ func (*Entry).ToPlain
+//@   requires c != nil && validOut(out) && newClock != nil
+//@   observe c.Clock, c.Identity
+//@   replay decodeentry
+//@   modifies fields(out.(*entry.Entry))
+//@   callspec newClock ensures validOutClock(result) && fresh(result)
+//@   ensures [decoded-entry-has-clock] err == nil ==> out.(*entry.Entry).Clock != nil
+
+//@ func (*EntryV0).ToPlain
+//@   requires e != nil && validOut(out) && newClock != nil
+//@   observe e.Clock
+//@   replay decodeentryv0
+//@   modifies fields(out.(*entry.Entry))
+//@   callspec newClock ensures validOutClock(result) && fresh(result)
+//@   ensures [decoded-entry-has-clock] err == nil ==> out.(*entry.Entry).Clock != nil
+//@   loop 0
+//@     invariant fresh(nextValues) && len(nextValues) == len(e.Next)
+//@     loopmodifies elems(nextValues)
